@@ -30,6 +30,8 @@ sub!(c05, "c05.rs");
 sub!(c03, "c03.rs");
 sub!(c09, "c09.rs");
 sub!(c08, "c08.rs");
+sub!(route, "route.rs");
+sub!(c02, "c02.rs");
 
 pub async fn main() -> Result<(), easy_error::Terminator> {
     let args: Vec<String> = std::env::args().collect();
@@ -48,6 +50,7 @@ pub async fn main() -> Result<(), easy_error::Terminator> {
         "c03" => c03::run(&mut out).await,
         "c09" => c09::run(&mut out).await,
         "c08" => c08::run(&mut out).await,
+        "c02" => c02::run(&mut out).await,
         _ => {
             eprintln!("unknown mode {}", mode);
             std::process::exit(2);
